@@ -97,6 +97,7 @@ func (e *Engine) RunPath(pkg *ssa.Package, fnName string, prefix []int64) (res P
 	CurPath = p
 	Sched = newScheduler()
 	resetIntrinsicState()
+	lastPanicStack = ""
 	i.funcsRun = map[*ssa.Function]bool{}
 	q0, ns0 := e.S.Queries, e.S.SolverNs
 	e.S.Push()
@@ -149,13 +150,22 @@ func (e *Engine) RunPath(pkg *ssa.Package, fnName string, prefix []int64) (res P
 				}
 			}
 		}()
+		inInit = true
 		call(i, nil, token.NoPos, pkg.Func("init"), nil)
+		inInit = false
 		call(i, nil, token.NoPos, fn, nil)
 	}()
 	func() {
 		defer func() { recover() }()
 		Sched.killAll()
 	}()
+	if res.Status == "panic" || res.Status == "unsupported" {
+		res.Msg += " @" + lastPanicStack
+	}
+	if inInit && (res.Status == "panic" || res.Status == "deadlock") {
+		res.Status = "unsupported"
+		res.Msg = "package initialisation failed in the interpreter: " + res.Msg
+	}
 	if res.Status == "panic" {
 		p.PanicObligation(res.Msg, "")
 	}
@@ -225,6 +235,8 @@ func findMethod(i *interpreter, t types.Type, name string) *ssa.Function {
 	}
 	return nil
 }
+
+var inInit bool
 
 var resetHooks []func()
 
